@@ -28,7 +28,15 @@ OPS = [  # (name, regex, replacement)
     ("minus1->minus2", r" - 1\b", " - 2"), ("plus1->plus0", r" \+ 1\b", " + 0"),
     ("half->quarter", r"\b0\.5\b", "0.25"), ("two->three", r"\b2\.0\b", "3.0"),
     ("zero->one", r"T::zero\(\)", "T::one()"), ("neg-drop", r"= -", "= "),
+    # second batch
+    ("rows->cols", r"self\.rows\b(?!\()", "self.cols"), ("cols->rows", r"self\.cols\b(?!\()", "self.rows"),
+    ("swap-ij", r"\(\s*i\s*,\s*j\s*\)", "( j, i )"), ("swap-ji", r"\(\s*j\s*,\s*i\s*\)", "( i, j )"),
+    ("swap-ik", r"\(\s*i\s*,\s*k\s*\)", "( k, i )"), ("swap-kj", r"\(\s*k\s*,\s*j\s*\)", "( j, k )"),
+    ("del-stmt", r"^(\s*)(?!let\b|return\b|if\b|for\b|while\b|else\b|match\b|\}|\{|pub\b|fn\b)([A-Za-z_\*][^;{}]*\s(=|\+=|-=|\*=|/=)\s[^;{}]*;)\s*$", r"\1/* deleted */"),
+    ("del-call", r"^(\s*)(?!let\b|return\b)((self|[a-z_]+)\.[a-z_]+\([^;{}]*\);)\s*$", r"\1/* deleted */"),
+    ("idx-plus", r"\[\s*([ijk])\s*\]", r"[ \1 + 1 ]"),
 ]
+BATCH2 = {"rows->cols", "cols->rows", "swap-ij", "swap-ji", "swap-ik", "swap-kj", "del-stmt", "del-call", "idx-plus"}
 
 PROPS_FOR = [
     (r"matrix/solve\.rs$", ["C01", "C02", "C17"]),
@@ -42,6 +50,7 @@ PROPS_FOR = [
     (r"mesh1d\.rs$|mesh2d\.rs$", ["C19", "C20"]),
 ]
 ALL = [f"C{i:02d}" for i in range(1, 21)]
+ONLY_OPS = set()
 
 
 def props_for(rel):
@@ -82,8 +91,9 @@ def enumerate_mutants(files_glob):
         for i, line in code_lines(f):
             code = line.split("//")[0]
             for name, pat, rep in OPS:
+                if ONLY_OPS and name not in ONLY_OPS: continue
                 for m in re.finditer(pat, code):
-                    new = line[:m.start()] + rep + line[m.end():]
+                    new = line[:m.start()] + m.expand(rep) + line[m.end():]
                     if new != line:
                         muts.append({"file": rel, "line": i + 1, "op": name, "col": m.start(), "old": line.strip()[:160], "new": new.strip()[:160], "_new_line": new})
     return muts
@@ -208,7 +218,10 @@ def main():
     ap.add_argument("--files", default=""); ap.add_argument("--scratch", default="/tmp/ohsl-mut"); ap.add_argument("--seed", type=int, default=1)
     ap.add_argument("--append", action="store_true")
     ap.add_argument("--redo-weak", action="store_true", help="re-run the mutants that were noticed only as a correspondence break")
+    ap.add_argument("--batch2", action="store_true", help="only the second batch of operators (statement deletion, index / dimension swaps)")
     a = ap.parse_args()
+    global ONLY_OPS
+    if a.batch2: ONLY_OPS = BATCH2
     muts = enumerate_mutants(a.files)
     random.Random(a.seed).shuffle(muts)
     done = set()
